@@ -30,12 +30,12 @@ import (
 )
 
 type task struct {
-	reader bool
-	w      *core.WriterSpec
-	kind   string
-	file   []byte
-	want   []byte        // writer reference
-	recs   []interface{} // reader reference
+	reader  bool
+	w       *core.WriterSpec
+	kind    string
+	got     []byte        // bytes written in the parallel phase
+	gotRecs []interface{} // records read in the parallel phase
+	gotErr  bool
 }
 
 func main() {
@@ -49,67 +49,71 @@ func main() {
 	bad := 0
 	total := 0
 	for round := 0; round < *rounds; round++ {
+		// Workloads grow from round to round, and the parallel phase runs BEFORE
+		// the solo references are computed: shared state of the "high-water mark"
+		// kind (a hint that is only written when something is larger than anything
+		// seen before in the process) is then written during the parallel phase
+		// and not warmed up by the harness itself.
+		o.MaxOps = 4 + 6*round
+		o.Profile.MaxStr = 6 + 12*round
 		tasks := make([][]*task, *g)
 		for i := 0; i < *g; i++ {
 			for j := 0; j < *per; j++ {
-				t := &task{w: core.GenHistory(r, o), reader: r.Chance(1, 3), kind: []string{"rs", "rsb"}[r.Intn(2)]}
-				// solo reference (sequential, before anything runs in parallel in this round)
-				sink := &core.Sink{}
-				res := core.ExecWriter(t.w, sink)
-				if res.Failed() != nil || !res.Closed {
-					fmt.Println("racemon: reference writer failed")
-					os.Exit(2)
-				}
-				if t.reader {
-					t.file = sink.Data
-					rr := core.ExecReader(t.w.Shape, core.NewSource(t.file, nil, nil).AsReadSeeker(t.kind), 1<<20, nil)
-					if rr.Reported() || rr.Panic != "" {
-						fmt.Println("racemon: reference reader failed")
-						os.Exit(2)
-					}
-					t.recs = rr.Recs
-				} else {
-					t.want = sink.Data
-				}
+				t := &task{w: core.GenHistory(r, o), reader: r.Chance(1, 2), kind: []string{"rs", "rsb", "rsx"}[r.Intn(3)]}
 				tasks[i] = append(tasks[i], t)
 			}
 		}
+		// a reader needs its file: written inside the parallel phase by the same goroutine
 		var wg sync.WaitGroup
-		var mu sync.Mutex
 		for i := 0; i < *g; i++ {
 			wg.Add(1)
 			go func(list []*task) {
 				defer wg.Done()
 				for _, t := range list {
-					ok := true
-					why := ""
-					if t.reader {
-						rr := core.ExecReader(t.w.Shape, core.NewSource(t.file, nil, nil).AsReadSeeker(t.kind), 1<<20, nil)
-						if rr.Reported() || rr.Panic != "" {
-							ok, why = false, "reader failed: "+rr.CtorErr+rr.FinalErr+rr.Panic
-						} else if eq, d := core.EqualRecs(rr.Recs, t.recs); !eq {
-							ok, why = false, d
-						}
-					} else {
-						sink := &core.Sink{}
-						res := core.ExecWriter(t.w, sink)
-						if f := res.Failed(); f != nil {
-							ok, why = false, "writer failed: "+f.Err+f.Panic
-						} else if !bytes.Equal(sink.Data, t.want) {
-							ok, why = false, "bytes differ from the solo run"
-						}
+					sink := &core.Sink{}
+					res := core.ExecWriter(t.w, sink)
+					t.gotErr = res.Failed() != nil || !res.Closed
+					t.got = sink.Data
+					if t.reader && !t.gotErr {
+						rr := core.ExecReader(t.w.Shape, core.NewSource(sink.Data, nil, nil).AsReadSeeker(t.kind), 1<<20, nil)
+						t.gotErr = rr.Reported() || rr.Panic != ""
+						t.gotRecs = rr.Recs
 					}
-					mu.Lock()
-					total++
-					if !ok {
-						bad++
-						fmt.Printf("INTERFERENCE %s: %s\n", t.w.HistoryString(), why)
-					}
-					mu.Unlock()
 				}
 			}(tasks[i])
 		}
 		wg.Wait()
+		// solo references, sequentially, afterwards
+		for i := 0; i < *g; i++ {
+			for _, t := range tasks[i] {
+				total++
+				sink := &core.Sink{}
+				res := core.ExecWriter(t.w, sink)
+				ok, why := true, ""
+				if res.Failed() != nil || !res.Closed {
+					fmt.Println("racemon: reference writer failed")
+					os.Exit(2)
+				}
+				if t.gotErr {
+					ok, why = false, "instance failed in the parallel phase, not when run alone"
+				} else if !bytes.Equal(sink.Data, t.got) {
+					ok, why = false, "bytes differ from the solo run"
+				} else if t.reader {
+					rr := core.ExecReader(t.w.Shape, core.NewSource(sink.Data, nil, nil).AsReadSeeker(t.kind), 1<<20, nil)
+					if rr.Reported() || rr.Panic != "" {
+						fmt.Println("racemon: reference reader failed")
+						os.Exit(2)
+					}
+					if eq, d := core.EqualRecs(t.gotRecs, rr.Recs); !eq {
+						ok, why = false, "records differ from the solo run: "+d
+					}
+				}
+				if !ok {
+					bad++
+					fmt.Printf("INTERFERENCE %s: %s\n", t.w.HistoryString(), why)
+				}
+			}
+		}
 	}
 	fmt.Printf("racemon: seed=%d goroutines=%d rounds=%d instances=%d interference=%d\n", *seed, *g, *rounds, total, bad)
 	if bad > 0 {
